@@ -71,39 +71,19 @@ func isPointOp(typ, m string) bool {
 
 func main() {
 	env, rep := vh.Parse("C10")
-	if *childMode != "" {
+	rep.Rule = "sweep: one case per (type, exported method, prepared state, existing|new key); " +
+		"sequential: random histories of point operations, non-trivial when ≥1 operation changes the abstract state; " +
+		"lock-step / oracle: one case per parked k-operation history; stress: one case per concurrent round, non-trivial when ≥2 operations overlap in time; " +
+		"race: one case per (type, method) pair run under the race detector; every phase runs in a worker process (a runtime fatal is a finding)"
+	switch {
+	case strings.HasPrefix(*childMode, "phase:"):
+		runPhaseWorker(strings.TrimPrefix(*childMode, "phase:"), env, rep)
+	case *childMode != "":
 		initDeadFromEnv()
 		runChild(*childMode, env)
-		return
+	default:
+		supervise(env, rep)
 	}
-	rng := vh.NewRng(env.Seed)
-	rep.Rule = "sweep: one case per (type, exported method, populated|empty instance), non-trivial when the method takes the instance lock path (all do); " +
-		"sequential: random histories of point operations, non-trivial when ≥1 operation changes the abstract state; " +
-		"stress: one case per concurrent round, non-trivial when ≥2 operations overlap in time; race: one case per (type, method) pair run under the race detector"
-
-	only := replayFilter(env)
-	fams := allFamilies()
-
-	startDeadline(env, rep)
-	facts := loadFacts(env, rep)
-	inPhase(env, rep, "sweep", func() { sweep(env, rep, only, facts) })
-	if only == nil {
-		inPhase(env, rep, "queues", func() {
-			blockingQueues(env, rep)
-			partialWakeups(env, rep)
-			orphanConsumers(env, rep)
-			containerArgProbes(env, rep)
-			readLockWriterStress(env, rep, facts)
-		})
-		inPhase(env, rep, "panic-safety", func() { panicSafety(env, rep) })
-		inPhase(env, rep, "sequential", func() { sequential(env, rep, rng.Fork(), fams) })
-		inPhase(env, rep, "lock-step", func() { lockstep(env, rep, fams) })
-		inPhase(env, rep, "oracle-lock-step", func() { oracleLockstep(env, rep, facts) })
-		inPhase(env, rep, "growth-removers", func() { growthAndRemovers(env, rep) })
-		stress(env, rep, rng.Fork(), fams)
-		race(env, rep)
-	}
-	finish(env, rep)
 }
 
 // replayFilter: `-replay FILE` re-runs the sweep for the (type, method) named by the replay's key.
@@ -167,6 +147,7 @@ func sequential(env *vh.Env, rep *vh.Report, rng *vh.Rng, fams []*family) {
 			}
 			rets := make([]string, 0, n)
 			var progress int32
+			at("sequential %s: %v", f.typ, ls)
 			o := vh.GuardTimeout(10*time.Second, func() {
 				for _, c := range it.calls {
 					rets = append(rets, tgt.apply(c))
@@ -340,6 +321,7 @@ func runStress(thorough bool, seed uint64, fams []*family, mark func(string)) *s
 					}
 				}
 			}
+			at("stress %s: %d goroutines × %d operations of %v after %v", f.typ, nG, nOps, kinds, prefill)
 			hist, dead := stressRound(f, rng, nG, nOps, kinds, prefill)
 			out.Rounds++
 			out.Goro[fmt.Sprint(nG)]++
